@@ -153,12 +153,27 @@ def export():
     head = subprocess.check_output(['git', '-C', '/repo', 'rev-parse', '--short', 'HEAD'], text=True).strip()
     for seed in sorted(glob.glob('/tmp/seed/out/C*/m*')):
         prop, m = seed.split('/')[-2], seed.split('/')[-1]
-        rfile = '%s/results/%s_%s.json' % (S, prop, m)
-        if not os.path.exists(rfile):
+        r = None
+        for base in ('results', 'results_part', 'results_old2', 'results_old'):   # the run in which the seed was confirmed
+            rfile = '%s/%s/%s_%s.json' % (S, base, prop, m)
+            if os.path.exists(rfile):
+                try:
+                    cand = json.load(open(rfile))
+                except Exception:
+                    continue
+                if cand.get('confirmed'):
+                    r = cand
+                    break
+        if r is None:
             continue
-        r = json.load(open(rfile))
-        if not r.get('confirmed'):
-            continue
+        ffile = '%s/final/%s_%s.json' % (S, prop, m)   # the last detection run (rebatch), if there is one
+        if os.path.exists(ffile):
+            try:
+                fin = json.load(open(ffile))
+                if fin.get('detect'):
+                    r = dict(r, detect=fin['detect'])
+            except Exception:
+                pass
         meta = json.load(open(os.path.join(seed, 'meta.json')))
         sid = '%s_%s' % (prop, m)
         dst = os.path.join(out_root, sid)
